@@ -43,6 +43,16 @@ import numpy as np
 import sympy as sym
 
 
+def _expr_to_blackbird(expr):
+    """Print a SymPy expression with every free parameter ``p`` written as ``{p}``.
+
+    The symbols are renamed before printing; inserting the braces into the printed
+    string would also hit parameter names contained in other names or in printed floats.
+    """
+    braced = {p: sym.Symbol("{" + str(p) + "}") for p in expr.free_symbols}
+    return str(expr.xreplace(braced))
+
+
 def numpy_to_blackbird(A, var_name):
     """Converts a numpy array to a Blackbird script array type.
 
@@ -408,11 +418,7 @@ class BlackbirdProgram:
 
                     elif isinstance(v, sym.Expr):
                         # argument contains free parameters
-                        res = str(v)
-                        for p in v.free_symbols:
-                            res = res.replace(str(p), "{"+str(p)+"}")
-
-                        args.append(res)
+                        args.append(_expr_to_blackbird(v))
 
                     else:
                         # anything that doesn't need to be dealt with as a special case,
